@@ -11,13 +11,19 @@
   * sums over trees/all entries are the same facts added up (`Lower::stats` is a fold of
     `HugeEntry::free` over the table).
 
-  PARTIAL: the *fast* count (`tree_stats`) = exact − offline and `validate()` need the upper
-  invariant (in progress); the statement "at the end of every concurrent interleaving" needs the
-  concurrent invariants. Carried by the correspondence: statistics, `stats_at`, `is_free`,
+  * `stats_exact` — `stats()` returns exactly the totals of the allocation state (free frames,
+    entirely free huge frames, entirely free trees); `stats_at_tree_exact`;
+  * `fast_counters_exact` — in every reachable state the fast counters (tree entry + local
+    reservations on the tree) add up to exactly the free frames of the tree, unless the tree is
+    hidden by `Offline` (then to at most that): "fast = exact − offline" tree by tree.
+
+  PARTIAL: that the *programs* `tree_stats()` / `validate()` sum these counters without panic
+  (loops over slots with the saturating correction of F9) is carried by the correspondence; the
+  statement "at the end of every concurrent interleaving" needs the concurrent invariants. Carried by the correspondence: statistics, `stats_at`, `is_free`,
   `tree_stats` and `validate()` compared with the ownership model after every call of every
   sequential history and at the quiescent end of every explored interleaving.
 -/
-import LLFreeV.Proofs.LowerGet
+import LLFreeV.Proofs.UpperInit
 namespace LLFree.C04
 open LLFree Prog
 
@@ -88,5 +94,30 @@ theorem stats_at_huge_exact (c : Cfg) (ok : GeomOk16 c.geom) (m : Mem) (inv : Lo
   simp only [runSolo, hE0, hne, if_false, if_true]
   simp only [runSolo_bind, hugeIdx, hidx, runSolo_loadK_some hE, andThen_ok, runSolo_pure]
   rw [huge_free_exact c okg m inv _ hh]
+
+
+/-- **`stats()`** (the exact view) returns exactly the number of free frames, of entirely free
+    huge frames and of entirely free trees of the allocation state, reads only, never panics. -/
+theorem stats_exact (c : Cfg) (okg : GeomOk c.geom) (m : Mem) (inv : LowerInv c m) :
+    Runs m (stats c) (fun r m' => m = m' ∧ r.freeFrames = m.freeTotal c.geom c.ntrees ∧
+      r.freeTrees = m.freeTreesCount c.geom c.ntrees ∧ r.freeHuge = m.freeHugeCount c.geom c.ntrees) :=
+  lower_stats_spec okg m inv
+
+/-- **`stats_at(tree start, TREE_ORDER)`** reports exactly the free frames of the tree. -/
+theorem stats_at_tree_exact (c : Cfg) (okg : GeomOk c.geom) (m : Mem) (inv : LowerInv c m) (i : Nat) (hi : i < c.ntrees) :
+    Runs m (Lower.statsAt c.geom (i * c.geom.treeFrames) c.geom.treeOrder) (fun st m' => m = m' ∧
+      st.freeFrames = m.freeInTree c.geom i) := statsAt_tree_spec okg m inv i hi
+
+/-- **Fast = exact − hidden, per tree**: in every reachable state (between calls) the counter of
+    a tree plus the counters of the reservations on it is exactly the number of free frames of
+    the tree unless frames of the tree are hidden by `Offline`, and never more. -/
+theorem fast_counters_exact (c : Cfg) (H : Nat → Prop) (m : Mem) (inv : UpperInv0 c H m) (i : Nat) (t : Tree)
+    (ht : m.trees[i]? = some t) :
+    t.free + m.slotFree c.geom.treeRows i ≤ m.freeInTree c.geom i ∧
+    (¬ H i → t.free + m.slotFree c.geom.treeRows i = m.freeInTree c.geom i) := by
+  have h1 := inv.counterLe i t ht
+  refine ⟨by omega, fun hn => ?_⟩
+  have h2 := inv.counterEq i t ht hn
+  omega
 
 end LLFree.C04
